@@ -30,7 +30,7 @@ def decode(input_string):
     value_error_message = "invalid literal for hybrid-36 conversion: '{0:s}'"
 
     original_input_string = input_string
-    input_string = input_string.strip()
+    input_string = input_string.strip(" ")
 
     # Manually handle negative sign.
     if input_string.startswith("-"):
